@@ -13,6 +13,7 @@ import OFV.Proofs.C11
 import OFV.Proofs.C11Num
 import OFV.Proofs.C11Real
 import OFV.Proofs.C11Double
+import OFV.Proofs.C11GaussGram
 import OFV.Proofs.C11Layers
 import OFV.Proofs.C11Step
 import OFV.Proofs.C11Sweep
@@ -404,6 +405,29 @@ theorem double_rotation_preserves_row_gram (M : Mat) (m N : Nat) (hM : Rect M m 
     (i j : Nat) (hij : i ≠ j) (hi : i < N) (hj : j < N) :
     Rect (doubleRotateCols M G N i j) m (2 * N) ∧ SameGram M (doubleRotateCols M G N i j) m (2 * N) :=
   doubleRotateCols_gram hM hG i j hij hi hj
+
+/-- **The column sweep of `fermionic_gaussian_decomposition` preserves `W W†`.**  For every `m × 2N` matrix, whenever the
+Model's sweep (particle-hole swaps of columns `N-1, 2N-1` and double Givens rotations, `gaussSweep`) returns and the run
+stays in the exact regime (`GaussSweepExact`: every entry compared with the tolerance is exactly zero or not below it,
+the real / complex decisions are exact), the matrix after the sweep has the same inner products of rows as the input: the
+first canonical constraint `W₁W₁† + W₂W₂† = 1` is an invariant of the whole sweep, singular left blocks (F11) included.
+(Part of the open reconstruction statement; the second constraint `W₁W₂ᵀ + W₂W₁ᵀ = 0` is not covered.) -/
+theorem gaussian_sweep_preserves_row_gram (tol : Rat) (htol : 0 < tol) (m n : Nat) (hn : 1 ≤ n) (ks : List Nat)
+    (M : Mat) (ls : List (List GOp)) (M' : Mat) (h : gaussSweep tol n ks M = .ok (ls, M'))
+    (hex : GaussSweepExact tol n ks M) (hR : Rect M m (2 * n)) :
+    Rect M' m (2 * n) ∧ SameGram M M' m (2 * n) :=
+  gaussSweep_gram tol htol m n hn ks M ls M' h hex hR
+
+/-- the particle-hole step alone (`swap_columns(W, N-1, 2N-1)`) preserves the inner products of rows -/
+theorem particle_hole_swap_preserves_row_gram (M : Mat) (m n : Nat) (hn : 1 ≤ n) (hR : Rect M m (2 * n)) :
+    Rect (swapCols M (n - 1) (2 * n - 1)) m (2 * n) ∧ SameGram M (swapCols M (n - 1) (2 * n - 1)) m (2 * n) :=
+  swapCols_gram hR (n - 1) (2 * n - 1) (by omega) (by omega) (by omega)
+
+-- non-vacuity: the F11 witness [[0,0,0,1],[0,0,1,0]] (N = 2): the sweep returns and its rows are orthonormal; the
+-- exact-regime predicate is inhabited
+example : (gaussSweep (1/100000000) 2 [0, 1, 2] [[0, 0, 0, 1], [0, 0, 1, 0]]).toOption.isSome = true ∧
+    orthonormalB [[0, 0, 0, 1], [0, 0, 1, 0]] 2 4 = true := by decide +kernel
+example (M : Mat) : GaussSweepExact (1/100000000) 2 [] M := trivial
 
 /-- signed zero matters: with `a = 0`, complex `b` and `which='right'` the Model yields `G₁₁ = -0.0` and
 `e^{iφ} = -1`; with `+0.0` (`e^{iφ} = 1`) the rebuilt rotation would differ from `G` in entry `[0,1]` -/
